@@ -538,12 +538,17 @@ package core
 //@ func copyIndexChunks$1
 //@   call KeysPrefix#1 assert [index-chunks-only] $prefix == model.ReverseIndexPrefix()
 
-// keys of a bundle: the root key, then its leaves; a root already in the KV is skipped with its
-// leaves, which needs the KV to hold those leaves (known finding K13: not so after a resume)
+// keys of a bundle: the root key, then its leaves
 //@ func bundleKeys
 //@   call Exists#1 bind known = $ret0
+//@   call Exists#1 bind fetched = false
 //@   call LeavesForHash#1 assert [leaves-of-root] $root == root && $leafSize == size
-//@   loop 1 step [skipped-root-has-its-leaves-indexed] known_set && known ==> kvComplete(iface(db), key)
+//@   call LeavesForHash#1 bind fetched = true
+// the leaves of a root already in the local KV are skipped only in a build that indexed that root itself; a
+// RESUMED build reloads the KV from the chunks uploaded so far, where a root may sit without its leaves, so it
+// fetches the leaves again (was known finding K13, repaired)
+//@   loop 1 step [a-resumed-build-fetches-the-leaves-of-known-roots-again] known_set && known && resumed ==> fetched
+//@   call append#1 assert [root-indexed-when-new] !known && $1[0] == key
 
 // the purge lock is created if absent unless forced
 //@ func PurgeLock
